@@ -7,6 +7,10 @@ import SparkxVerif.Gen.QCumulant
   `flow <k> <imag> <events>`      -> `ok <v_n{k}>` | `ok nan`
   `dflow <k> <imag> <pevents>`    -> `ok <v'_n{k}>` | `ok nan`
   `fc <k> <imag> <c>` / `dfc <k> <imag> <c> <d>` -> the two flow-from-cumulant decision functions alone
+  `gcorr <k> <events>`            -> `<<k>>` by the function GENERATED from `__calculate_corr`
+  `gdflow <k> <imag> <pevents>`   -> `v'_n{k}` computed only by GENERATED functions: `<<2>>`, `<<4>>` of the full events
+                                     (`__calculate_corr`), the arguments `dargs<k>` (`__compute_differential_flow_bin`),
+                                     the decision (`__flow_from_cumulant_differential`, real part as returned)
 -/
 namespace SparkxVerif.Drv.C11
 open SparkxVerif SparkxVerif.Proto SparkxVerif.QC
@@ -75,6 +79,19 @@ def handle : List String → String
   | ["dflow", k, im, evs] =>
     match k.toNat?, imag? im, pevents? evs with
     | some k, some im, some es => if k == 2 || k == 4 then showFlow (dvn rootp k im es) else "err value"
+    | _, _, _ => "bad-op"
+  | ["gdflow", k, im, evs] =>
+    match k.toNat?, imag? im, pevents? evs with
+    | some 2, some im, some es =>
+      let c2 := Gen.QCumulant.corr2 (es.map full)
+      let a := Gen.QCumulant.dargs2 es c2
+      showFlow (Gen.QCumulant.dflow rootp 2 im a.1 a.2.re)
+    | some 4, some im, some es =>
+      let c2 := Gen.QCumulant.corr2 (es.map full)
+      let c4 := Gen.QCumulant.corr4 (es.map full)
+      let a := Gen.QCumulant.dargs4 es c2 c4
+      showFlow (Gen.QCumulant.dflow rootp 4 im a.1 a.2.re)
+    | some _, some _, some _ => "err value"
     | _, _, _ => "bad-op"
   | _ => "bad-op"
 
